@@ -80,6 +80,9 @@ def main(argv=None):
             return 2
         return mod.replay(args.replay)
     verdict = core.Verdict(args.prop, args.tier, args.seed)
+    if args.tier == "thorough":
+        # every export run of the thorough tier replays for at most this long at full density (core.Budget)
+        os.environ.setdefault("VERIF_RUN_BUDGET", "300")
     try:
         level, coverage, assumptions = mod.run(args.tier, args.seed, verdict)
     except core.MachineryError as exc:
